@@ -95,5 +95,59 @@ Fixpoint go_map_set {V} (m : list (Z * V)) (k : Z) (v : V) : list (Z * V) :=
 (* make([]T, n): n zero values *)
 Definition go_make {A} (n : Z) (d : A) : list A := repeat d (Z.to_nat n).
 
+(* ---------- state mode: codec.Reader = { ref []byte; buf *bytes.Reader over ref; depth int } ----------
+   bytes.Reader is its underlying slice and its read position (the position may lie beyond the end after a Seek).
+   Stated semantics of the library calls the translated code makes (each returns the new state first):
+   ReadByte: at or beyond the end -> (0, EOF), else the byte, position + 1;  UnreadByte: position <= 0 -> error, else
+   position - 1 (whatever the previous operation was);  Len: bytes between position and end (0 beyond the end);
+   Seek(off, io.SeekCurrent): negative target -> error, else the position is set (beyond the end allowed);
+   Read(p): at or beyond the end -> (0, EOF) even for an empty p, else copies min(len p, Len) bytes, no error;
+   io.ReadFull(r, p): fills p or consumes what is left and fails (no error for an empty p);
+   bReadU8/16/32/64: ReadByte resp. io.ReadFull into a zeroed 2/4/8-byte array, decoded big-endian (also on failure). *)
+Record go_reader := { rd_ref : list N; rd_pos : Z; rd_depth : Z }.
+Definition go_rd_set_pos (rd : go_reader) (p : Z) := {| rd_ref := rd_ref rd; rd_pos := p; rd_depth := rd_depth rd |}.
+Definition go_rd_set_depth (rd : go_reader) (d : Z) := {| rd_ref := rd_ref rd; rd_pos := rd_pos rd; rd_depth := d |}.
+Definition go_rd_rest (rd : go_reader) : list N := go_drop (rd_ref rd) (rd_pos rd).     (* what is left to read *)
+Definition go_rd_len (rd : go_reader) : Z := go_len (go_rd_rest rd).
+Definition go_rd_readbyte (rd : go_reader) : go_reader * Z * bool :=
+  match go_rd_rest rd with
+  | [] => (rd, 0, true)
+  | b :: _ => (go_rd_set_pos rd (rd_pos rd + 1), Z.of_N b, false)
+  end.
+Definition go_rd_unreadbyte (rd : go_reader) : go_reader * bool :=
+  if rd_pos rd <=? 0 then (rd, true) else (go_rd_set_pos rd (rd_pos rd - 1), false).
+Definition go_rd_seekcur (off : Z) (rd : go_reader) : go_reader * Z * bool :=
+  let abs := wrapS 64 (rd_pos rd + off) in
+  if abs <? 0 then (rd, 0, true) else (go_rd_set_pos rd abs, abs, false).
+Definition go_rd_read (p : list N) (rd : go_reader) : go_reader * list N * Z * bool :=
+  match go_rd_rest rd with
+  | [] => (rd, p, 0, true)
+  | rest => let got := go_take rest (go_len p) in
+            (go_rd_set_pos rd (rd_pos rd + go_len got), got ++ go_drop p (go_len got), go_len got, false)
+  end.
+Definition go_rd_readfull (p : list N) (rd : go_reader) : go_reader * list N * Z * bool :=
+  let got := go_take (go_rd_rest rd) (go_len p) in
+  (go_rd_set_pos rd (rd_pos rd + go_len got), got ++ go_drop p (go_len got), go_len got, negb (go_len got =? go_len p)).
+Definition go_rd_be (n : nat) (rd : go_reader) : go_reader * Z * bool :=
+  let '(rd', buf, _, err) := go_rd_readfull (repeat 0%N n) rd in (rd', go_be n 0 buf, err).
+Definition go_rd_u8 (rd : go_reader) : go_reader * Z * bool := go_rd_readbyte rd.
+Definition go_rd_u16 := go_rd_be 2.
+Definition go_rd_u32 := go_rd_be 4.
+Definition go_rd_u64 := go_rd_be 8.
+
+(* sync/atomic on an int32 variable (the state is its value): CompareAndSwapInt32(&x, old, new), AddInt32(&x, d) *)
+Definition go_atomic_cas32 (old new : Z) (x : Z) : Z * bool := if x =? old then (new, true) else (x, false).
+Definition go_atomic_add32 (d : Z) (x : Z) : Z * Z := let v := wrapS 32 (x + d) in (v, v).
+
+(* `for { body }` of a unit with fuel: the body falls through (next iteration: the unit again, with the fuel left),
+   breaks (Return (inl state)) or returns (Return (inr results)) *)
+Definition go_iter {S B S' R} (c : ctl S (B + R)) (kbreak : B -> ctl S' R) (knext : S -> ctl S' R) : ctl S' R :=
+  match c with
+  | Next s => knext s
+  | Return (inl b) => kbreak b
+  | Return (inr r) => Return r
+  | Panic => Panic
+  end.
+
 (* the representation invariant of []byte / string values *)
 Definition bytes_ok (l : list N) : Prop := Forall (fun b => (b < 256)%N) l.
